@@ -18,6 +18,10 @@ import dom_common as D
 
 ELEMS = ['P', 'Span', 'Section', 'List', 'ListItem', 'H']
 EMPTY_ELEMS = ['LineBreak', 'S', 'Tab', 'TextProperties']     # grammar-empty kinds; several of them alive at once
+# elements a document index is keyed by an attribute of: style:style (style:name).  Built with check_grammar=False they LACK
+# that attribute; a 'setns' op of the prologue gives some of them a name (the empty string among them)
+KEYED_ELEMS = ['Style']
+STYLE_NAMES = [None, None, u'', u'N1', u'N2', u'Cafe\u0301']      # distinct names only: a clash would make the document rename a style
 
 
 # ---------------------------------------------------------------------------------------------
@@ -102,7 +106,7 @@ class ListRef(object):
     def expect(self, op):
         """'ok' | 'NotFound' | 'DomError' (a node that cannot have children) | None (grammar decides)"""
         k = op[0]
-        if k in ('new',):
+        if k in ('new', 'setns'):      # creating a node, giving an element an attribute value
             return 'ok'
         p = op[1]
         if self.kind[p] != 'e':
@@ -191,13 +195,24 @@ class StepOracle(object):
 
 # ---------------------------------------------------------------------------------------------
 # generators
-def prologue(rng, attached, n_elem=5, n_text=3, n_cdata=1, same_text=False):
+def prologue(rng, attached, n_elem=5, n_text=3, n_cdata=1, same_text=False, kinds=None, names=None):
+    """kinds: element kinds by position (exhaustive universes); names: {id: style:name} set after the creations"""
     ops = []
+    named = dict(names or {})
     for i in range(n_elem):
         if attached and i == 0:
             ops.append(['new', 'e', 0, '@doctext'])
+        elif kinds is not None:
+            ops.append(['new', 'e', i, kinds[i]])
+        elif rng and i >= n_elem - 2 and rng.random() < 0.5:
+            # one or two of the elements are style:style elements: without style:name, with an empty or an ordinary one
+            ops.append(['new', 'e', i, rng.choice(KEYED_ELEMS)])
+            nm = STYLE_NAMES[(rng.randrange(len(STYLE_NAMES) // 2) * 2 + (i % 2)) % len(STYLE_NAMES)]       # distinct per position
+            if nm is not None: named[i] = nm
         else:
             ops.append(['new', 'e', i, (rng.choice(EMPTY_ELEMS) if rng.random() < 0.3 else rng.choice(ELEMS)) if rng else ['Section', 'P', 'Span', 'P', 'Span'][i % 5]])
+    for i in sorted(named):
+        ops.append(['setns', i, D.STYLENS, u'name', named[i]])
     # text nodes with EQUAL content (all non-empty ones hold the same string), one or two of them empty
     if same_text:
         datas = [None] * n_text
@@ -353,13 +368,14 @@ def report(chk, attached, ops, orc):
 
 
 # ---------------------------------------------------------------------------------------------
-def exhaustive(chk, drv, attached, n_elem, n_text, max_depth, max_states, same_text=False):
+def exhaustive(chk, drv, attached, n_elem, n_text, max_depth, max_states, same_text=False, kinds=None, names=None):
     """every op of the alphabet applied in every distinct state reachable within max_depth steps
     (= all op sequences of length <= max_depth+1 over the universe, up to equality of the complete
     pointer state).  Returns (#states, #ops applied, closed?)."""
-    pro = prologue(None, attached, n_elem=n_elem, n_text=n_text, n_cdata=0, same_text=same_text)
+    pro = prologue(None, attached, n_elem=n_elem, n_text=n_text, n_cdata=0, same_text=same_text, kinds=kinds, names=names)
     if n_text >= 2 and not same_text:
-        pro[-1] = ['new', 'c', pro[-1][2], None]       # one (empty) Text and one CDATASection
+        last = max(j for j, o in enumerate(pro) if o[0] == 'new')
+        pro[last] = ['new', 'c', pro[last][2], None]       # one (empty) Text and one CDATASection
     ids = list(range(n_elem + n_text))
     alphabet = []
     for p in ids:
@@ -402,7 +418,7 @@ def exhaustive(chk, drv, attached, n_elem, n_text, max_depth, max_states, same_t
                     chk.corr_diff({'attached': attached, 'ops': seq}, orc.diff['impl'], orc.diff['model'],
                                   'answer / pointer snapshot (%s)' % orc.diff['line'])
                 napplied += 1
-                chk.case(('x', attached, n_elem, n_text, json.dumps(path + [op])), nontrivial=True)
+                chk.case(('x', attached, n_elem, n_text, json.dumps(path + [op])) + ((json.dumps([kinds, names], sort_keys=True),) if kinds else ()), nontrivial=True)
                 chk.count('exhaustive_' + op[0])
                 if orc.failed:
                     report(chk, attached, seq, orc)
@@ -425,13 +441,51 @@ def exhaustive(chk, drv, attached, n_elem, n_text, max_depth, max_states, same_t
 # ---------------------------------------------------------------------------------------------
 # histories on a real DOCUMENT: tree edits in its sections (office:text, office:meta with several children and
 # generators in every position), the document's public cache methods, and the rendering calls (oracle only)
+def loaded_document():
+    """a text document as load() gives it, read from a package in which a style under office:styles, one under
+    office:automatic-styles LACK the style:name attribute and two others bear the empty name
+    (the attribute is taken out of the written files with zipfile; load() does not check the grammar)"""
+    import io, zipfile
+    from odf.opendocument import OpenDocumentText, load
+    from odf import style, text
+    d = OpenDocumentText()
+    for k, sec in enumerate((d.styles, d.automaticstyles)):
+        sec.addElement(style.Style(name=u'ZZDROP%d' % k, family=u'paragraph'))
+        sec.addElement(style.Style(name=u'ZZEMPTY%d' % k, family=u'paragraph'))
+        sec.addElement(style.Style(name=u'Kept%d' % k, family=u'paragraph'))
+    for st in d.automaticstyles.childNodes:              # automatic styles are written when something uses them
+        d.text.addElement(text.P(text=u'a paragraph', stylename=st))
+    buf = io.BytesIO(); d.write(buf)
+    zin = zipfile.ZipFile(io.BytesIO(buf.getvalue()))
+    out = io.BytesIO(); zout = zipfile.ZipFile(out, 'w', zipfile.ZIP_DEFLATED)
+    dropped = 0
+    for info in zin.infolist():
+        body = zin.read(info.filename)
+        if info.filename in ('styles.xml', 'content.xml'):
+            t = body.decode('utf-8')
+            for k in (0, 1):
+                dropped += t.count(u' style:name="ZZDROP%d"' % k)
+                t = t.replace(u' style:name="ZZDROP%d"' % k, u'').replace(u'style:name="ZZEMPTY%d"' % k, u'style:name=""')
+            body = t.encode('utf-8')
+        zout.writestr(info, body, zipfile.ZIP_STORED if info.filename == 'mimetype' else zipfile.ZIP_DEFLATED)
+    zout.close()
+    assert dropped >= 2, 'the written package does not spell the style names as expected'
+    return load(io.BytesIO(out.getvalue()))
+
+
 class DocUniverse(object):
     attached = False
-    def __init__(self):
+    def __init__(self, loaded=False):
         from odf.opendocument import OpenDocumentText
-        self.doc = OpenDocumentText()
+        self.loaded = loaded
+        self.doc = loaded_document() if loaded else OpenDocumentText()
         self.nodes = {}; self.idof = {}; self.roots = {}
         self.sweep()
+        if loaded:
+            # only the frame of a loaded document stays put; its styles, paragraphs and metadata move like any node
+            d = self.doc
+            self.skel = set(self.nid(n) for n in [d.topnode] + list(d.topnode.childNodes) + list(d.body.childNodes))
+            return
         self.skel = set(self.nodes)
         self.skel.discard(self.nid(self.doc.meta.childNodes[0]))       # the generator may be moved like any node
 
@@ -460,6 +514,10 @@ class DocUniverse(object):
         elif k == 'Title': n = dc.Title(text=u'a title')
         elif k == 'Generator': n = meta.Generator(text=u'someone else')
         elif k == 'Creator': n = meta.InitialCreator(text=u'me')
+        elif k == 'Style':
+            # a style:style without style:name (spec[1] None), with the empty or an ordinary name
+            n = D.factory('Style')(check_grammar=False)
+            if spec[1] is not None: n.setAttrNS(D.STYLENS, u'name', spec[1])
         else: n = D.factory(k)(check_grammar=False)
         self.reg(n)
         if n.nodeType == 1:
@@ -482,6 +540,9 @@ class DocUniverse(object):
             elif k == 'append': N[op[1]].appendChild(N[op[2]])
             elif k == 'insb': N[op[1]].insertBefore(N[op[2]], None if op[3] is None else N[op[3]])
             elif k == 'rm': N[op[1]].removeChild(N[op[2]])
+            elif k == 'loaded': pass                                    # head of a history on a loaded document
+            elif k == 'rma':                                            # removeAttribute('name') of an element that has one
+                if (D.STYLENS, u'name') in N[op[1]].attributes: N[op[1]].removeAttribute('name')
             elif k == 'clear': d.clear_caches()
             elif k == 'rebuild': d.rebuild_caches() if op[1] is None else d.rebuild_caches(N[op[1]])
             elif k == 'build': d.build_caches(N[op[1]])
@@ -521,22 +582,52 @@ def doc_fixed_histories():
             base + [['clear'], ['rm', 11, 12]], base + [['clear'], ['rebuild', None], ['rm', 11, 12]],
             base + [['rmcache', 12], ['rm', 11, 12]], base + [['build', 12], ['rm', 11, 12]],
             base + [['rebuild', 12], ['rm', 12, 13]], base + [['clear'], ['render', 'xml'], ['render', 'save']]]
+    # style:style elements that lack style:name (12), bear the empty name (13) or an ordinary one (14), in the style sections
+    # (7 = office:styles, 8 = office:automatic-styles) and in a paragraph (15) under office:text: moved inside a section, to the
+    # other section, removed, removed as part of a subtree, after losing the name by removeAttribute
+    S0 = ['make', ['Style', None]]; S1 = ['make', ['Style', u'']]; S2 = ['make', ['Style', u'N1']]
+    sb = [S0, S1, S2, P]
+    out += [sb + [['append', 7, 14], ['append', 7, 12], ['append', 7, 13], ['insb', 7, 12, 14], ['append', 8, 12], ['rm', 8, 12], ['rm', 7, 13]],
+            sb + [['append', 8, 12], ['rm', 8, 12]], sb + [['append', 7, 13], ['rm', 7, 13]],
+            sb + [['append', 11, 15], ['append', 15, 12], ['rm', 15, 12], ['append', 15, 12], ['rm', 11, 15]],
+            sb + [['append', 7, 14], ['rma', 14], ['insb', 7, 12, 14], ['rm', 7, 14], ['append', 8, 14], ['append', 7, 14], ['render', 'xml']],
+            sb + [['append', 7, 12], ['render', 'save'], ['clear'], ['rm', 7, 12]]]
     return out
 
 
-def doc_random_history(rng):
-    u = DocUniverse()
+def doc_random_history(rng, loaded=False):
+    u = DocUniverse(loaded)
     ops = []
     def do(op):
         ops.append(op); return u.apply(op)
-    for spec in (['P'], ['Span'], ['Section'], ['Title'], ['Generator'], ['Creator'], ['t', u'txt'], ['t', u'txt'], ['t', u'']):
+    if loaded:
+        do(['loaded'])
+    for spec in (['P'], ['Span'], ['Section'], ['Title'], ['Generator'], ['Creator'], ['t', u'txt'], ['t', u'txt'], ['t', u''],
+                 ['Style', None], ['Style', u''], ['Style', u'N1']):
         do(['make', spec])
     yield u, ops, None, 'ok'
-    text = u.nid(u.doc.text); mt = u.nid(u.doc.meta)
+    text = u.nid(u.doc.text); mt = u.nid(u.doc.meta); st = u.nid(u.doc.styles); au = u.nid(u.doc.automaticstyles)
     for _ in range(rng.randint(4, 25)):
         mov = [i for i in sorted(u.nodes) if i not in u.skel]
-        par = [text, mt, text, mt] + [i for i in mov if u.nodes[i].nodeType == 1]
-        k = rng.choice(['append'] * 4 + ['insb'] * 4 + ['rm'] * 3 + ['cache'] * 3 + ['render'] * 3)
+        par = [text, mt, text, mt, st, au] + [i for i in mov if u.nodes[i].nodeType == 1]
+        k = rng.choice(['append'] * 4 + ['insb'] * 4 + ['rm'] * 3 + ['cache'] * 3 + ['render'] * 3 + ['style'] * 3 + ['rma'])
+        if k == 'style':
+            # a style (named or not) goes into / moves between the style sections
+            sty = [i for i in mov if getattr(u.nodes[i], 'qname', None) == (D.STYLENS, u'style')]
+            if not sty: continue
+            p = rng.choice([st, au]); c = rng.choice(sty)
+            ks = [u.nid(x) for x in u.nodes[p].childNodes]
+            op = ['insb', p, c, rng.choice(ks)] if ks and rng.random() < 0.4 else ['append', p, c]
+            ans = do(op)
+            yield u, ops, op, ans
+            continue
+        if k == 'rma':
+            sty = [i for i in mov if getattr(u.nodes[i], 'qname', None) == (D.STYLENS, u'style') and (D.STYLENS, u'name') in u.nodes[i].attributes]
+            if not sty: continue
+            op = ['rma', rng.choice(sty)]
+            ans = do(op)
+            yield u, ops, op, ans
+            continue
         if k in ('append', 'insb'):
             p = rng.choice(par); c = rng.choice(mov)
             if u.anc_or_self(c, p): continue
@@ -550,7 +641,10 @@ def doc_random_history(rng):
             p, c = rng.choice(sorted(cand)); op = ['rm', p, c]
         elif k == 'cache':
             els = [i for i in sorted(u.nodes) if u.nodes[i].nodeType == 1]
-            op = rng.choice([['clear'], ['clear'], ['rebuild', None], ['rebuild', rng.choice(els)], ['build', rng.choice(els)],
+            # asking the document to index (build / rebuild) a style:style that has no parent is a caller error outside the
+            # property (registering a style looks at the section it lies in): such targets are left out
+            inx = [i for i in els if not (u.nodes[i].qname == (D.STYLENS, u'style') and u.nodes[i].parentNode is None)]
+            op = rng.choice([['clear'], ['clear'], ['rebuild', None], ['rebuild', rng.choice(inx)], ['build', rng.choice(inx)],
                              ['rmcache', rng.choice(els)]])
         else:
             op = ['render', rng.choice(['xml', 'metaxml', 'save', 'contentxml', 'stylesxml', 'settingsxml', 'write'])]
@@ -561,7 +655,7 @@ def doc_random_history(rng):
 def doc_check(u, op, ans):
     """the C08 invariant on every node ever seen, after any call, whatever it raised; tree edits and rendering calls
     that are legal must not raise"""
-    if op is not None and ans != 'ok' and op[0] in ('append', 'insb', 'rm', 'render', 'clear', 'rebuild', 'make'):
+    if op is not None and ans != 'ok' and op[0] in ('append', 'insb', 'rm', 'render', 'clear', 'rebuild', 'make', 'rma', 'loaded'):
         sig = ('legal-edit-refused:' if op[0] in ('append', 'insb', 'rm') else 'document-call-raises:') + ans[4:].split(':')[0]
         probs = consistency_problems(u)
         return (sig, '%s answered %s%s' % (op, ans, ('; afterwards: ' + '; '.join(probs[:3])) if probs else ''))
@@ -572,7 +666,7 @@ def doc_check(u, op, ans):
 
 
 def run_doc_ops(ops):
-    u = DocUniverse()
+    u = DocUniverse(loaded=bool(ops) and ops[0][0] == 'loaded')
     for idx, op in enumerate(ops):
         ans = u.apply(op)
         bad = doc_check(u, op, ans)
@@ -587,7 +681,7 @@ def doc_histories(chk, n):
         while changed:
             changed = False
             for i in range(len(cur) - 2, -1, -1):
-                if cur[i][0] == 'make': continue
+                if cur[i][0] in ('make', 'loaded'): continue
                 cand = cur[:i] + cur[i + 1:]
                 try:
                     r = run_doc_ops(cand)
@@ -601,9 +695,11 @@ def doc_histories(chk, n):
         r = run_doc_ops(ops)
         chk.case(('doc', json.dumps(ops)), nontrivial=True); chk.count('document_history_fixed')
         if r: report_doc(ops[:r[0] + 1], r[1][0])
-    for _ in range(n):
+    for s in range(n):
         last = None
-        for u, ops, op, ans in doc_random_history(chk.rng):
+        loaded = (s % 4 == 3)             # every fourth history runs on a document that came from load()
+        chk.count('document_history_loaded' if loaded else 'document_history_built')
+        for u, ops, op, ans in doc_random_history(chk.rng, loaded):
             if op is not None: chk.count('docop_' + op[0])
             bad = doc_check(u, op, ans)
             if bad:
@@ -641,6 +737,14 @@ def run(chk, replay=None):
     # the same small universe with two Text nodes of IDENTICAL content (removing / moving the second of two equal siblings)
     ns, na, closed = exhaustive(chk, drv, False, 2, 2, 5 if thorough else 3, 4000, same_text=True)
     chk.notes.append('exhaustive free universe 2 elements + 2 equal text nodes: %d states, %d (state, op) pairs' % (ns, na))
+    # universes with style:style elements that LACK style:name / bear the empty name / an ordinary one, attached to a document
+    # (the document keeps an index keyed by that attribute) and free-standing
+    for attached, kinds, names, depth in [(True, ['@doctext', 'Style', 'P'], {}, 3 if thorough else 2),
+                                          (True, ['@doctext', 'Style', 'Style'], {2: u''}, 3 if thorough else 2),
+                                          (False, ['Section', 'Style', 'Style'], {2: u'N1'}, 3 if thorough else 1)]:
+        ns, na, closed = exhaustive(chk, drv, attached, 3, 1, depth, 1500, kinds=kinds, names=names)
+        chk.notes.append('exhaustive %s universe %s (style names %s) + 1 text: %d distinct states, %d (state, op) pairs, depth<=%d'
+                         % ('attached' if attached else 'free', kinds, json.dumps(names, sort_keys=True), ns, na, depth + 1))
     for attached, ne, nt, depth, cap in plans:
         ns, na, closed = exhaustive(chk, drv, attached, ne, nt, depth, cap)
         chk.notes.append('exhaustive %s universe %d elements + %d text: %d distinct states, %d (state, op) pairs, depth<=%d%s'
